@@ -12,6 +12,7 @@ import hashlib
 import importlib
 import json
 import os
+import re
 import sys
 import time
 import traceback
@@ -647,3 +648,91 @@ def replay(ctx, path, subs):
         return 1
     print('%s replay: no violation' % ctx.pid)
     return 0
+
+
+# ---------------------------------------------------------------------------------------------------------------------
+# coverage-guided campaigns (atheris / libFuzzer) as an extra generator; the check's own property function stays the oracle
+
+VT_PYTHON = '/opt/veriftools/pyvenv/bin/python'
+FUZZ_DICT = ['\n', '\r', '\t', '\x00', '\x0b', '\x1c', '\x85', '\xa0', ' ', '　', '٠', '٩', '۵', '१',
+             '０', '９', 'Ａ', 'Ｚ', '²', '¹', '①', '⁵', 'ı', 'İ', 'ß', 'ſ',
+             'K', 'ﬁ', 'Α', 'А', '‐', '–', '−', '­', '​', '‍', '﻿', '‮',
+             '\U0001d7ce', '\U0001d7d7', '\U00010107', '௰', '፩', '〇', '一', '½']
+
+
+def fuzz_campaign(ctx, which, seconds, seeds_for, replay_case, res, max_len=64):
+    """Run `seconds` of atheris per shard on NPROC shards; every reported case is replayed through replay_case(case_dict)
+    (which calls the check's property function). seeds_for(module name) -> a few valid numbers for the starting corpus of
+    the odd shards (even shards start from an empty corpus). Returns a notes dict; never raises a violation itself."""
+    import glob
+    import shutil
+    import subprocess
+    import tempfile
+    info = {'tool': 'atheris (libFuzzer), %d shards x %ds, max_len=%d' % (NPROC, seconds, max_len)}
+    target = os.path.join(os.path.dirname(os.path.abspath(__file__)), 'fuzz', 'target.py')
+    probe = subprocess.run([VT_PYTHON, '-c', 'import atheris'], capture_output=True) if os.path.exists(VT_PYTHON) else None
+    if probe is None or probe.returncode != 0:
+        info['skipped'] = 'atheris not available in %s' % VT_PYTHON
+        res.notes['coverage_guided'] = info
+        return info
+    names = sorted(number_modules())
+    base = tempfile.mkdtemp(prefix='vf-fuzz-', dir='/dev/shm' if os.path.isdir('/dev/shm') else None)
+    try:
+        out = os.path.join(base, 'out')
+        os.makedirs(out)
+        with open(os.path.join(base, 'dict'), 'w', encoding='ascii') as f:
+            for i, t in enumerate(FUZZ_DICT):
+                f.write('k%d="%s"\n' % (i, ''.join('\\x%02x' % b for b in t.encode('utf-8'))))
+        procs = []
+        for s in range(NPROC):
+            cdir = os.path.join(base, 'corpus%d' % s)
+            os.makedirs(cdir)
+            mine = [n for i, n in enumerate(names) if i % NPROC == s]
+            if s % 2:
+                for j, n in enumerate(mine):
+                    for k, v in enumerate(seeds_for(n)[:3]):
+                        with open(os.path.join(cdir, 's%d_%d' % (j, k)), 'wb') as f:
+                            f.write(bytes([j]) + v.encode('utf-8'))
+            env = dict(os.environ, VERIF_REPO=REPO, PYTHONHASHSEED='0')
+            env.pop('PYTHONPATH', None)
+            log = open(os.path.join(base, 'log%d' % s), 'wb')
+            procs.append((subprocess.Popen(
+                [target, which, out, str(s), str(NPROC), '-max_total_time=%d' % seconds, '-max_len=%d' % max_len,
+                 '-seed=%d' % (subseed(ctx.seed, 'fuzz', which, s) % (2 ** 31 - 1) + 1), '-dict=' + os.path.join(base, 'dict'),
+                 '-verbosity=0', '-print_final_stats=1', cdir], stdout=log, stderr=subprocess.STDOUT, env=env, cwd=base), log))
+        execs = 0
+        failed = []
+        for s, (p, log) in enumerate(procs):
+            try:
+                p.wait(timeout=seconds * 3 + 120)
+            except subprocess.TimeoutExpired:
+                p.kill()
+                failed.append('shard %d: timeout' % s)
+            log.close()
+            text = open(os.path.join(base, 'log%d' % s), 'rb').read().decode('utf-8', 'replace')
+            m = re.search(r'stat::number_of_executed_units:\s*(\d+)', text) or re.search(r'Done (\d+) runs', text)
+            if m:
+                execs += int(m.group(1))
+            elif p.returncode != 0:
+                failed.append('shard %d: exit %s: %s' % (s, p.returncode, text[-300:]))
+        cases = []
+        for fn in sorted(glob.glob(os.path.join(out, 'case-*.json'))):
+            cases.append(json.load(open(fn, encoding='utf-8')))
+        info.update({'executions': execs, 'cases_reported_by_target': len(cases), 'failed_shards': failed,
+                     'starting_corpus': 'even shards empty, odd shards 3 valid numbers per module',
+                     'pinning': 'libFuzzer -seed only approximately pins a campaign; a reported case is the reproducible unit'})
+        if failed and not execs:
+            res.errors.append('coverage-guided campaign did not run: %s' % failed[:2])
+        reproduced = added = 0
+        for c in cases:
+            before, nb = sum(res.viol_count.values()), len(res.viol)
+            replay_case(c)
+            reproduced += sum(res.viol_count.values()) > before
+            added += len(res.viol) > nb
+        info['cases_confirmed_by_property_function'] = reproduced
+        info['cases_adding_a_bucket_the_generated_search_had_not_found'] = added
+        res.hist['coverage-guided-executions'] += execs
+    finally:
+        shutil.rmtree(base, ignore_errors=True)
+    res.notes['coverage_guided'] = info
+    return info
